@@ -208,7 +208,9 @@ type C04 struct {
 	writers map[string]map[string]bool // "addr|batch" with retired>0 -> set of msg types that wrote the row afterwards
 }
 
-func init() { RegisterChecker("C04", func() Checker { return &C04{writers: map[string]map[string]bool{}} }) }
+func init() {
+	RegisterChecker("C04", func() Checker { return &C04{writers: map[string]map[string]bool{}} })
+}
 
 func (c *C04) ID() string { return "C04" }
 
